@@ -351,6 +351,13 @@ fn virtio_case(line: &str) -> String {
         let mr: &vm_memory::MmapRegion<AtomicBitmap> = std::ops::Deref::deref(r);
         mr.bitmap().reset();
     }
+    // initial state of the dirty log (a long-lived log is not empty when a request arrives)
+    for pg in kv(line, "dirty0").split(',').filter(|s| !s.is_empty()) {
+        let a = num(pg) * 4096;
+        if let Some(reg) = mem.find_region(GuestAddress(a)) {
+            reg.bitmap().mark_dirty((a - reg.start_addr().0) as usize, 1);
+        }
+    }
     let mut init = String::from("\"ok\"");
     let mut rs = Vec::new();
     let mut ws = Vec::new();
